@@ -159,3 +159,32 @@ def lemma(name):
         LEMMAS.append(l)
         return cls
     return deco
+
+
+class Frame(object):
+    """A frame contract: `modifies` lists the parameters the function may modify; every other parameter (the object and
+    everything reachable inside it) and every mutable default argument of every function reached must be left unchanged.
+    Checked by pyvc.frames (may-alias / effect analysis of the real source, callees inlined)."""
+    def __init__(self, target, cls):
+        self.target_fn = target
+        self.target = "frame::" + target
+        self.name = self.target
+        self.cls = cls
+        self.modifies = tuple(getattr(cls, "modifies", ()))
+        self.types = dict(getattr(cls, "types", {}))
+        self.values = dict(getattr(cls, "values", {}))
+        self.use_defaults = tuple(getattr(cls, "use_defaults", ()))
+        self.assumptions = list(getattr(cls, "assumptions", []))
+        self.property_ids = tuple(getattr(cls, "properties", ()))
+
+
+FRAMES = []
+
+
+def frame(target):
+    def deco(cls):
+        f = Frame(target, cls)
+        cls.__frame__ = f
+        FRAMES.append(f)
+        return cls
+    return deco
